@@ -814,6 +814,8 @@ class Scores:
         """Midpoint of lower < upper that classifies both values correctly."""
         lower, upper = float(lower), float(upper)  # Narrow integer scores would overflow
         threshold = (lower + upper) / 2
+        if not math.isfinite(threshold):  # The sum overflows near the float range limit
+            threshold = lower / 2 + upper / 2
         # For adjacent floats the midpoint rounds onto one of the two values. Samples
         # equal to the threshold go to the class with the higher scores iff
         # equal_class == score_class, so we keep the threshold on the correct side.
